@@ -547,7 +547,10 @@ def search_configs(tier, rng):
                 for mode in ("rand", "pos"):
                     cfgs.append(dict(kind="bnaf", dim=dim, cond_dim=None if (dim + depth) % 2 else 2, depth=depth, block_dim=bd, mode=mode))
     rng.shuffle(cfgs)
-    return cfgs[: (40 if tier == "quick" else 400)]
+    # degenerate sizes first (dim 1 with and without condition, every depth: the special cases of the rank assignment), then the shuffled rest
+    edge = [c for c in cfgs if c["kind"] == "maf" and c["dim"] == 1 and c["mode"] == "pos"]
+    rest = [c for c in cfgs if c not in edge]
+    return (edge + rest)[: (40 + len(edge) if tier == "quick" else 400)]
 
 
 def wkey(w):
